@@ -49,7 +49,8 @@ func (g *Gen) metaTable(tag string) *L.TableExpr {
 		add("__len", fn([]string{"a"}, false, blk(emit(str("__len"+tag)), ret(num(42)))))
 	}
 	if g.n(6, "hasprot") == 0 {
-		add("__metatable", str("locked"+tag))
+		// any value other than nil guards the metatable - false and 0 included
+		add("__metatable", []L.Expr{str("locked" + tag), &L.FalseExpr{}, num(0), str(""), tbl(kv(str("guard"), str(tag)))}[g.n(5, "protval")])
 	}
 	switch g.n(4, "hasindex") {
 	case 0:
@@ -81,7 +82,16 @@ func (g *Gen) operandZoo() ([]string, []L.Stmt) {
 		ss = append(ss, local1("mtB", g.metaTable("B")))
 		if g.n(2, "sharehandlers") == 0 {
 			// different metatables with identical comparison handlers
-			ss = append(ss, assign1(field(name("mtB"), "__eq"), field(name("mtA"), "__eq")), assign1(field(name("mtB"), "__lt"), field(name("mtA"), "__lt")), assign1(field(name("mtB"), "__le"), field(name("mtA"), "__le")))
+			// each comparison event shared or not on its own: a shared __lt with different (or one-sided) __le makes <= fall
+			// back to not (b < a)
+			for _, ev := range []string{"__eq", "__lt", "__le"} {
+				switch g.n(4, "share"+ev) {
+				case 0, 1:
+					ss = append(ss, assign1(field(name("mtB"), ev), field(name("mtA"), ev)))
+				case 2:
+					ss = append(ss, assign1(field(name("mtB"), ev), &L.NilExpr{}))
+				}
+			}
 			g.class("meta:shared_handlers")
 		}
 	}
@@ -217,8 +227,14 @@ func (g *Gen) tplMetaOps() []L.Stmt {
 			// the same chain serves assignments: a store under an absent key travels down to the first table without
 			// __newindex (the bottom), or ends in an error when the chain is too long
 			ss = append(ss, local1("bottom", name("base")))
+			if g.n(3, "callablelink") == 0 {
+				// a link of the chain that is itself callable (a table with __call): it is indexed, not called
+				g.class("meta:index_chain_callable_link")
+				ss = append(ss, assign1(name("base"), call(name("setmetatable"), tbl(kv(str("linkfield"), str("from the callable link"))), tbl(kv(str("__index"), name("base")), kv(str("__newindex"), name("base")),
+					kv(str("__call"), fn(nil, true, blk(emit(str("a chain link was called"), call(name("select"), str("#"), &L.VarargExpr{})), ret(str("called")))))))))
+			}
 			ss = append(ss, &L.NumForStmt{Var: "d", Start: num(1), End: num(float64(depth)), Body: blk(assign1(name("base"), call(name("setmetatable"), tbl(), tbl(kv(str("__index"), name("base")), kv(str("__newindex"), name("base"))))))})
-			ss = append(ss, protect(field(name("base"), "deep")), protect(field(name("base"), "nothing")), emit(call(name("rawget"), name("base"), str("deep"))),
+			ss = append(ss, protect(field(name("base"), "deep")), protect(field(name("base"), "nothing")), protect(field(name("base"), "linkfield")), emit(call(name("rawget"), name("base"), str("deep"))),
 				emit(call(name("pcall"), fn(nil, false, blk(assign1(field(name("base"), "stored"), num(1))))), call(name("rawget"), name("bottom"), str("stored")), call(name("rawget"), name("base"), str("stored"))),
 				emit(call(name("pcall"), fn(nil, false, blk(local1("ck2", str("stored2")), assign1(idx(name("base"), name("ck2")), num(2))))), call(name("rawget"), name("bottom"), str("stored2"))))
 			// the same lookups through a computed key, a method call and as the environment of a function
